@@ -35,8 +35,8 @@ class ModEmitter:
             return SEL[n.attr]
         return None
 
-    def block_of(self, n):
-        """A[self.f, :][:, self.p] or A[self.f, ...][..., self.m]"""
+    def block_parts(self, n):
+        """A[self.f, :][:, self.p] or A[self.f, ...][..., self.m]  ->  (row selector, matrix expression, column selector)"""
         if not (isinstance(n, ast.Subscript) and isinstance(n.value, ast.Subscript)):
             return None
         outer, inner = n, n.value
@@ -51,7 +51,23 @@ class ModEmitter:
         rs, cs = self.sel_of(r), self.sel_of(c)
         if rs is None or cs is None:
             return None
-        return f'({rs} * {self.tr(inner.value)} * {cs})'
+        return rs, inner.value, cs
+
+    def block_of(self, n):
+        parts = self.block_parts(n)
+        if parts is None:
+            return None
+        rs, mat, cs = parts
+        return f'({rs} * {self.tr(mat)} * {cs})'
+
+    def binop(self, op, left, right):
+        return f'({left} {op} {right})'
+
+    def inner_result(self):
+        return f'(solve_ff {self.inner_rhs})'
+
+    def on_zeros(self, name, v):
+        """a zero-initialised array starts being filled (the dtype pass reads its dtype here)"""
 
     def tr(self, n):
         key = ast.unparse(n)
@@ -69,7 +85,7 @@ class ModEmitter:
         if isinstance(n, ast.BinOp):
             ops = {ast.MatMult: '*', ast.Add: '+', ast.Sub: '-'}
             if type(n.op) in ops:
-                return f'({self.tr(n.left)} {ops[type(n.op)]} {self.tr(n.right)})'
+                return self.binop(ops[type(n.op)], self.tr(n.left), self.tr(n.right))
             self.fail(n, 'operator')
         if isinstance(n, ast.IfExp):
             # storage conversion: X.toarray() if hasattr(X, 'toarray') else np.asarray(X)
@@ -124,11 +140,12 @@ class ModEmitter:
             if ast.unparse(v) == 'self.module_LinSolve.sig_out[0].state':
                 if not self.inner_called:
                     self.fail(s, 'inner result read before response()')
-                self.env[ts] = f'(solve_ff {self.inner_rhs})'
+                self.env[ts] = self.inner_result()
                 return None
             if isinstance(t, (ast.Name, ast.Attribute)):
                 if self.is_zeros(v):
                     self.arrays[ts] = []
+                    self.on_zeros(ts, v)
                     self.env.pop(ts, None)
                 else:
                     self.env[ts] = self.tr(v)
@@ -150,6 +167,124 @@ class ModEmitter:
                 return [self.tr(e) for e in v.elts]
             return [self.tr(v)]
         self.fail(s, 'statement')
+
+
+class DtEmitter(ModEmitter):
+    """T-dtype: the same statements read over dtype tags (Model/LinDtype.v): every expression -> its numpy dtype,
+    every zero-initialised array -> (dtype it is allocated with, dtypes of the values stored into it)."""
+    TYPES = {'float': 'DFloat', 'complex': 'DComplex', 'int': 'DInt', 'bool': 'DBool',
+             'np.float64': 'DFloat', 'np.complex128': 'DComplex', 'np.int64': 'DInt', 'np.bool_': 'DBool'}
+
+    def __init__(self, env):
+        super().__init__(env)
+        self.bufs = {}
+        self.ret_keys = None
+
+    def block_of(self, n):
+        parts = self.block_parts(n)
+        return None if parts is None else self.tr(parts[1])
+
+    def binop(self, op, left, right):
+        return f'(rt {left} {right})'
+
+    def inner_result(self):
+        return f'(sol {self.inner_mat} {self.inner_rhs})'
+
+    def array_term(self, name):
+        return self.bufs[name]
+
+    def dt_expr(self, e):
+        """an expression in dtype position"""
+        src = ast.unparse(e)
+        if src in self.TYPES:
+            return self.TYPES[src]
+        if isinstance(e, ast.Attribute) and e.attr == 'dtype':
+            return self.tr(e.value)
+        if isinstance(e, ast.Call) and ast.unparse(e.func) == 'np.result_type' and e.args and not e.keywords:
+            t = self.dt_expr(e.args[0])
+            for a in e.args[1:]:
+                t = f'(rt {t} {self.dt_expr(a)})'
+            return t
+        self.fail(e, 'dtype expression')
+
+    def on_zeros(self, name, v):
+        if not isinstance(v, ast.Call):
+            self.fail(v, 'allocation whose dtype depends on a run-time test')
+        fn = ast.unparse(v.func)
+        kw = {k.arg: k.value for k in v.keywords}
+        if set(kw) - {'dtype'} or len(v.args) not in (1, 2) or (len(v.args) == 2 and 'dtype' in kw):
+            self.fail(v, 'allocation arguments')
+        dt = kw.get('dtype', v.args[1] if len(v.args) == 2 else None)
+        if dt is not None:
+            self.bufs[name] = self.dt_expr(dt)
+        elif fn == 'np.zeros':
+            self.bufs[name] = 'DFloat'
+        else:                                   # np.zeros_like(Y): the dtype of Y
+            self.bufs[name] = self.tr(v.args[0])
+
+    def stmt(self, s, skip=()):
+        if isinstance(s, ast.Return):
+            v = s.value
+            self.ret_keys = [ast.unparse(e) for e in (v.elts if isinstance(v, ast.Tuple) else [v])]
+        return super().stmt(s, skip)
+
+    def stores(self, name):
+        return '[' + '; '.join(t for _, t in self.arrays[name]) + ']'
+
+
+DT_HEADER = '''(* GENERATED by tools/gen_C07.py (gen_lindtype) from {src} -- do not edit *)
+From Coq Require Import List.
+From Pymoto Require Import Model.LinDtype.
+Import ListNotations.
+'''
+
+
+def gen_lindtype(repo):
+    """dtype reading of SystemOfEquations._response and StaticCondensation._response"""
+    tree, _ = parse_file(os.path.join(repo, 'pymoto/modules/linalg.py'))
+    out = [DT_HEADER.format(src='pymoto/modules/linalg.py')]
+    c = find_class(tree, 'SystemOfEquations')
+    fn = find_func(c, '_response')
+    if [a.arg for a in fn.args.args] != ['self', 'A', 'bf', 'xp']:
+        raise Unsupported('T-dtype(C07): signature of SystemOfEquations._response changed')
+    em = DtEmitter({'A': 'dA', 'bf': 'dBf', 'xp': 'dXp'})
+    ret = None
+    for s in fn.body:
+        r = em.stmt(s, SOE_SKIP)
+        if r is not None:
+            ret = r
+    if ret is None or len(ret) != 2 or em.inner_mat is None or any(k not in em.arrays for k in em.ret_keys):
+        raise Unsupported('T-dtype(C07): SystemOfEquations._response does not return two filled zero arrays')
+    kx, kb = em.ret_keys
+    sig = '(sol : dtype -> dtype -> dtype) (dA dBf dXp : dtype)'
+    out.append(f'Definition gen_soe_x_buf {sig} : dtype :=\n  {ret[0]}.\n')
+    out.append(f'Definition gen_soe_b_buf {sig} : dtype :=\n  {ret[1]}.\n')
+    out.append(f'Definition gen_soe_x_stores {sig} : list dtype :=\n  {em.stores(kx)}.\n')
+    out.append(f'Definition gen_soe_b_stores {sig} : list dtype :=\n  {em.stores(kb)}.\n')
+    out.append(f'Definition gen_soe_inner {sig} : dtype * dtype :=\n  ({em.inner_mat}, {em.inner_rhs}).\n')
+
+    c = find_class(tree, 'StaticCondensation')
+    fn = find_func(c, '_response')
+    if [a.arg for a in fn.args.args] != ['self', 'A']:
+        raise Unsupported('T-dtype(C07): signature of StaticCondensation._response changed')
+    em = DtEmitter({'A': 'dA'})
+    ret = None
+    for s in fn.body:
+        r = em.stmt(s, ['self.n = np.shape(A)[0]'])
+        if r is not None:
+            ret = r
+    if ret is None or len(ret) != 1 or em.inner_mat is None:
+        raise Unsupported('T-dtype(C07): StaticCondensation._response')
+    sig = '(sol : dtype -> dtype -> dtype) (dA : dtype)'
+    out.append(f'Definition gen_sc_out {sig} : dtype :=\n  {ret[0]}.\n')
+    out.append(f'Definition gen_sc_inner {sig} : dtype * dtype :=\n  ({em.inner_mat}, {em.inner_rhs}).\n')
+    return '\n'.join(out)
+
+
+# index bookkeeping of SystemOfEquations._response (free / prescribed complement): fingerprinted, it defines the selectors
+SOE_SKIP = ['self.n = np.shape(A)[0]', 'self.dim = xp.ndim',
+            'if self.f is None:\n    all_dofs = np.arange(self.n)\n    self.f = np.setdiff1d(all_dofs, self.p)',
+            'if self.p is None:\n    all_dofs = np.arange(self.n)\n    self.p = np.setdiff1d(all_dofs, self.f)']
 
 
 def gen_linmods(repo):
